@@ -30,4 +30,5 @@ let run_glob infile outfile =
 let () =
   match Array.to_list Sys.argv with
   | [_; "glob"; infile; outfile] -> run_glob infile outfile
+  | [_; "mem"; infile; outfile] -> Memrun.run_mem infile outfile
   | _ -> prerr_endline "usage: modelrun <mode> <in> <out>"; exit 2
